@@ -1,6 +1,6 @@
 """Registry of the claimed properties: proof obligations and correspondence streams."""
 
-WIRE_FLAG = r"^VIOL|panic|PANIC|OUTSIDE|SIZE-|PLACEMENT|MISMATCH|ACCESSOR-DIFFERS"
+WIRE_FLAG = r"^VIOL|panic|PANIC|OUTSIDE|SIZE-|PLACEMENT|MISMATCH|ACCESSOR-DIFFERS|!FIELDRAW|!TAGLOOKUP|!GHOST"
 TIES = ["SpecVerif.Ties.typeCodes_tie", "SpecVerif.Ties.listElemSmall_tie", "SpecVerif.Ties.listElemBig_tie",
         "SpecVerif.Ties.msgFieldSmall_tie", "SpecVerif.Ties.msgFieldBig_tie", "SpecVerif.Ties.maxSize_tie",
         "SpecVerif.Ties.pinned_codes_consistent"]
